@@ -50,23 +50,44 @@ def rule_w1(ctx: Ctx) -> None:
         raise AnalysisError("CLI has_finitely_many_simples vanished")
     from ..core import inlined_text
 
-    ifs = [s for s in cli.body if isinstance(s, ast.If)]
-    if len(ifs) != 1:
-        raise AnalysisError(f"{cli.where}: verdict branch not recognised")
+    from ..core import flow_env, reach_conditions, subst_names
+
     arg = cli.params[0]
-    test = inlined_text(cli, ifs[0].test).replace(f"Basis.from_string({arg}.basis)", "basis")
-    pos_msg, neg_msg = unparse(ifs[0].body[0]), unparse(ifs[0].orelse[0]) if ifs[0].orelse else ""
-    if test == "Av(basis).has_finitely_many_simples()":
-        if " finitely many" in pos_msg and "infinitely many" in neg_msg and "infinitely" not in pos_msg:
-            ctx.ok("C16-W1", cli.where, "CLI prints 'finitely many' exactly when Av(basis).has_finitely_many_simples()", ifs[0], cli)
-        else:
-            ctx.violation("C16-W1", cli, ifs[0], f"CLI messages are swapped or unclear: true -> {pos_msg[:60]!r}, false -> {neg_msg[:60]!r}")
-    elif test == "not Av(basis).has_finitely_many_simples()" and "infinitely many" in pos_msg and " finitely many" in neg_msg:
-        ctx.ok("C16-W1", cli.where, "CLI prints 'infinitely many' exactly when the decision is negative", ifs[0], cli)
-    elif "has_finite" in test:
-        ctx.violation("C16-W1", cli, ifs[0], f"CLI decides by `{test}` instead of Av(basis).has_finitely_many_simples(): a different (partial) computation than the other entry points")
+    decision = {"T": None}
+
+    def classify(test: ast.AST):
+        env = flow_env(cli, test)
+        t = unparse(subst_names(test, env)).replace(f"Basis.from_string({arg}.basis)", "basis")
+        if t == "Av(basis).has_finitely_many_simples()":
+            return "T"
+        if t == "not Av(basis).has_finitely_many_simples()":
+            return "F"
+        if "has_finite" in t:
+            decision["other"] = t
+        return None
+
+    def wanted(n: ast.AST) -> bool:
+        return isinstance(n, ast.Call) and call_name(n) == ("print",) and n.args and "many simples" in unparse(n.args[0])
+
+    reach = reach_conditions(cli, wanted, classify)
+    if "other" in decision:
+        ctx.violation("C16-W1", cli, cli.node, f"CLI decides by `{decision['other']}` instead of Av(basis).has_finitely_many_simples(): a different (partial) computation than the other entry points")
+        return
+    if len(reach) != 2:
+        raise AnalysisError(f"{cli.where}: expected two verdict messages, found {len(reach)}")
+    bad = []
+    for n, c in reach:
+        msg = unparse(n.args[0])
+        positive = " finitely many" in msg and "infinitely" not in msg
+        negative = "infinitely many" in msg
+        if positive == negative or c not in ("T", "F"):
+            raise AnalysisError(f"{cli.where}: verdict message `{msg[:50]}` / its condition ({c}) not recognised")
+        if (positive and c == "F") or (negative and c == "T"):
+            bad.append(msg)
+    if bad:
+        ctx.violation("C16-W1", cli, reach[0][0], f"CLI messages are swapped: {bad[0][:70]!r} is printed for the opposite verdict")
     else:
-        raise AnalysisError(f"{cli.where}: decision expression `{test}` not recognised")
+        ctx.ok("C16-W1", cli.where, "CLI prints 'finitely many' exactly when Av(basis).has_finitely_many_simples(), 'infinitely many' otherwise", reach[0][0], cli)
 
 
 def rule_w2(ctx: Ctx) -> None:
